@@ -276,6 +276,7 @@ func vC18SizeBoundary(o *vOut, r *vRand) {
 					o.stat(fmt.Sprintf("size_L%d", L), 1)
 				}
 				vC18SizeCheck(o, x, wire, c.name, L)
+				vC18XAsk(o, x) // the model answers the same size strata for the kinds it covers
 			}
 		}
 	}
